@@ -11,6 +11,7 @@ missed=0
 for d in $V/seeded/*/; do
   id=$(basename "$d"); [ -n "$1" ] && [[ "$id" != $1* ]] && continue
   if grep -q '"retired"' "$d/meta.json"; then echo "$id: retired (see meta.json)"; continue; fi
+  if grep -q '"known_miss"' "$d/meta.json"; then echo "$id: known miss (see meta.json)"; continue; fi
   props=$(python3 -c "
 import json,sys
 m=json.load(open('$d/meta.json'))
